@@ -550,3 +550,32 @@ CONTROLS['C04'] += [
     C('batch_map ignores the requested backend (I)',
       kw_drop('core', 'Dataset.batch_map', 'map', 'backend'), 'C04.I'),
 ]
+
+CONTROLS['C08'] += [
+    C('items path of the parallel map uses the helper default buffer (L8)',
+      kw_drop('core', 'ParMapDataset.__iter__', 'lazy_parallel_map', 'buffer_size'), 'L8', tier='quick'),
+    C('duplicate-key snapshot iterates the input again (L7)',
+      expr_replace('core', 'from_dataset', 'list(map(operator.itemgetter(1), items))', 'list(examples)'), 'L7', tier='quick'),
+]
+CONTROLS['C13'] += [
+    C('freeze branch of lazy apply returns an unfrozen dataset (frozen-result)',
+      stmt_replace('core', 'ApplyDataset.copy', 'return self.apply_function(self.input_dataset).copy(freeze=freeze)',
+                   'return self.apply_function(self.input_dataset.copy(freeze=freeze))'), 'CC', tier='quick'),
+]
+CONTROLS['C14'] += [
+    C('lookup on a filter compares the predicate with False (FP)',
+      F('core', 'FilterDataset.__getitem__', lambda n: isinstance(n, ast.If) and 'filter_function' in A.src(n.test),
+        lambda n: (setattr(n, 'test', M.parse_expr('self.filter_function(ex) is False')), n)[1]), 'FP', tier='quick'),
+]
+CONTROLS['C10'] += [
+    C('memory percentage taken from available memory (G)',
+      expr_replace('core', 'CacheDataset._get_memory_size', 'psutil.virtual_memory().total', 'psutil.virtual_memory().available'), 'C10.G'),
+]
+CONTROLS['C02'] += [
+    C('batch append moved behind the fullness test (BL)',
+      F('core', 'BatchDataset.__iter__', lambda n: isinstance(n, ast.For) and A.src(n.iter) == 'self.input_dataset',
+        lambda n: (setattr(n, 'body', [n.body[1], n.body[0]]), n)[1]), 'BL', tier='quick'),
+    C('prefetch length refused only for catch_filter_exception is True (K2)',
+      F('core', 'PrefetchDataset.__len__', lambda n: isinstance(n, ast.If),
+        lambda n: (setattr(n, 'test', M.parse_expr('self.catch_filter_exception is True')), n)[1]), 'K2'),
+]
